@@ -228,6 +228,22 @@ def event_cases(r, tr, tier, tabs):
             e = t.streams[sidx][1]
             e.insert(i, L.Ev(e[i].clock, mcv))
             out.append(Case("mcv", f"s{sidx} insert {mcv!r} at {i}", t))
+            # ... and in context: right after every event of the same model and category (inside the region the
+            # declared event opened, e.g. an undeclared KC? after KCO: seeded C12-7 took it for KCI), twice at most
+            ctx = [j + 1 for j, x in enumerate(evs) if x.mcv[:2] == mcv[:2] and 0 < j + 1 < len(evs)]
+            for i in ctx[:2]:
+                t = tr.clone()
+                e = t.streams[sidx][1]
+                e.insert(i, L.Ev(e[i - 1].clock, mcv))
+                out.append(Case("mcv", f"s{sidx} insert {mcv!r} after {e[i - 1].mcv!r} at {i}", t))
+            # ... and IN PLACE of a declared event of the same model and category (same payload): a handler that
+            # takes every unknown value for the closing event would otherwise get its closing event later
+            for j in [j for j, x in enumerate(evs) if x.mcv[:2] == mcv[:2] and x.mcv != mcv][:3]:
+                t = tr.clone()
+                e = t.streams[sidx][1]
+                old_mcv = e[j].mcv
+                e[j].mcv = mcv
+                out.append(Case("mcv", f"s{sidx} replace {old_mcv!r} by {mcv!r} at {j}", t))
         # wrong payload size for the size-checked events
         for i, e in enumerate(evs):
             sizes = {"OHx": [0, 2, 3], "OAs": [0, 2, 3, 5, 8, 16], "OAr": [0, 2, 4, 7, 12, 16]}.get(e.mcv)
